@@ -44,6 +44,7 @@ func c17Metas() []map[string]string {
 		{"k": "é世 \"q\" <&>", requeuer.RetriesKey: "3"},
 		{requeuer.RetriesKey: "x"},
 		{requeuer.RetriesKey: "0", "a": "b"},
+		{requeuer.RetriesKey: "9223372036854775808", "big": "1"}, // not a counter the Requeuer can read: it starts again at 1
 	}
 }
 
@@ -80,7 +81,9 @@ func runC17(c *Ctx) error {
 						c17Msg{UUID: "u-mid1", Payload: "p", Meta: metas[2], Env: "valid", Dest: "dest-8"},
 						c17Msg{UUID: "bad6", Payload: `null`, Meta: metas[0], Env: "plainjson"},
 						c17Msg{UUID: "u-mid2", Payload: "p", Meta: metas[1], Env: "valid", Dest: "dest-7"},
-						c17Msg{UUID: "bad7", Payload: `{"event":"OrderPlaced","n":1}`, Meta: metas[2], Env: "plainjson"})
+						c17Msg{UUID: "bad7", Payload: `{"event":"OrderPlaced","n":1}`, Meta: metas[2], Env: "plainjson"},
+						// a destination that has the same NAME as the forwarder topic (another broker, a second forwarder behind this one) is a destination
+						c17Msg{UUID: "u-samename", Payload: "p", Meta: metas[1], Env: "valid", Dest: "<fwd>"})
 				}
 				cases = append(cases, cs)
 				if comp == "forwarder" && fi < 2 {
@@ -242,6 +245,9 @@ func c17Run(r *tr.Run, cs c17Case) {
 	}
 	for i, m := range cs.Msgs {
 		i, m := i, m
+		if m.Dest == "<fwd>" {
+			m.Dest = fwdTopic
+		}
 		id := fmt.Sprintf("m%d", i+1)
 		orig := message.NewMessage(m.UUID, []byte(m.Payload))
 		for k, v := range m.Meta {
